@@ -121,6 +121,30 @@ MISSED = {
     "C18-10": "ragged records for pivot (several keys that only later records have) in the expression pool",
     "C19-9": "B-inject: a value the JSON encoder must refuse under -C / -M / -I0 / -P companions",
     "C19-10": "B-inject: one malformed XML file among several XML inputs (any position, eval and eval-all)",
+    "C02-12": "`put` law also spelled `with(P; . = v)`",
+    "C05-11": "block scalars whose lines look like YAML syntax (`*new: …`, `&x y: z`, `<<: *base`, `--- …`)",
+    "C05-12": "explicitly tagged EMPTY scalars (`!!str`, `!unit` with nothing behind) in flow and block context",
+    "C07-11": "line family: an element appended and deleted again in one expression (document must be what it was)",
+    "C07-12": "line family: `-=` on anchored block / flow sequences with aliases further down",
+    "C08-11": "anchored family: sums of collections written in different styles (`.flowseq + .service`, `.items + .flowmap`)",
+    "C08-12": "anchored family: reduce over an object-literal accumulator reading below the loop variable, in read-only positions",
+    "C09-11": "exponent-notation number literals (dense layout puts them right behind `+` / `-`)",
+    "C10-11": "family O7: JSON streams (several values per file) in sequence mode: count, order, positions, eval == eval-all",
+    "C11-11": "soup atoms: the context itself in a union under a binding / inside eval",
+    "C11-12": "soup atoms: records of unequal width for the row-wise encoders",
+    "C12-11": "a short successful edit after the fault runs of a slice, in the same directory and TMPDIR (what failed runs left behind must not leak in)",
+    "C12-12": "the directory that holds the target is a protocol role: faults on its open / fsync are enumerated like the others",
+    "C13-12": "route 2d: `to_json | from_json` inside the expression == the document's own resolution (anchor names defined again)",
+    "C14-12": "XML processing instructions whose target begins with a character of the prefix (`php`, `pipeline`, `_dbg`)",
+    "C15-11": "strings that spell instants (RFC 3339, different offsets / fractions) in the sort pools",
+    "C15-12": "capitalised boolean spellings (`True`, `FALSE`) in the pools",
+    "C16-11": "one expression-built value assigned to two places, then path / key / parent below each",
+    "C16-12": "`keys` vs `to_entries` on every map of documents with merge keys, before and after explode",
+    "C17-12": "-o=shell of a node SELECTED from inside the document (names are formed from the selected node on)",
+    "C18-11": "row-wise encoders (csv / tsv) serving records under different column names in one run and across a history",
+    "C18-12": "Lua input that sets globals and returns nothing",
+    "C19-11": "B-inject: in-expression decoders (`from_json`, `from_yaml`) on an empty text in document k",
+    "C19-12": "B-inject: the failing run repeated with `-i` in eval and eval-all mode",
 }
 REGRESSED = {
     "C11-1": "caught when delivered (4 violation lines), lost when the generator grew (0 of 40 k cases), caught again after reversed slices were made denser and the quick tier raised to 100 k cases",
@@ -159,7 +183,7 @@ for name in sorted(os.listdir(src)):
     for f in os.listdir(d):
         if f in ("patch.diff", "demo.sh") or f.endswith("_test.go"):
             shutil.copy(os.path.join(d, f), os.path.join(out, f))
-    rnd = {"1": 1, "2": 1, "3": 2, "4": 2, "5": 3, "6": 3, "7": 4, "8": 4, "9": 5, "10": 5}[name.split("-")[1]]
+    rnd = {"1": 1, "2": 1, "3": 2, "4": 2, "5": 3, "6": 3, "7": 4, "8": 4, "9": 5, "10": 5, "11": 6, "12": 6}[name.split("-")[1]]
     new = {
         "id": name,
         "property": meta.get("property", name[:3]),
